@@ -253,7 +253,7 @@ def expand_items(items: CollapsedItems, is_linetable: bool) -> ExpandedItems:
                         bytecode_offset=MAX_BYTECODE,
                     )
                 )
-                if is_linetable:
+                if is_linetable and line_offset is not None:
                     line_offset = 0
                 bytecode_offset -= MAX_BYTECODE
                 emitted_extra = True
